@@ -642,6 +642,34 @@ var limitProgs = []limitProg{
 	{name: "deep-regs", kind: "reg", want: func(n int) int { return n },
 		src: `local function rec(n) local a, b, c, d, e, f, g, h = 1, 2, 3, 4, 5, 6, 7, 8 if n == 0 then return mark() end return 1 + rec(n - 1) + (a - a) end
 		      return pcall(rec, N)`},
+	// registry exhaustion that kills a coroutine started with coroutine.create/resume (no pcall inside):
+	// resume must return false + message, the coroutine is dead, the resumer is running again
+	// (checked from inside an outer coroutine, where coroutine.running() is a value), a second
+	// resume reports a dead coroutine
+	{name: "unpack-resume", kind: "reg", co: true, want: func(n int) int { return n },
+		src: `local t = {} for i = 1, N do t[i] = i end
+		      local outer = coroutine.wrap(function()
+		        local me = coroutine.running()
+		        local co = coroutine.create(function() mark() return select('#', unpack(t, 1, N)) end)
+		        local ok, v = coroutine.resume(co)
+		        if coroutine.running() ~= me then return false, "running thread is wrong after resume" end
+		        if coroutine.status(co) ~= "dead" then return false, "status " .. coroutine.status(co) end
+		        local ok2, v2 = coroutine.resume(co)
+		        if ok2 ~= false or not tostring(v2):find("dead") then return false, "second resume: " .. tostring(v2) end
+		        return ok, v
+		      end)
+		      local ok, v = outer()
+		      if coroutine.running() ~= nil then return false, "main thread is not running" end
+		      return ok, v`},
+	{name: "deep-regs-resume", kind: "reg", co: true, want: func(n int) int { return n },
+		src: `local function rec(n) local a, b, c, d, e, f, g, h = 1, 2, 3, 4, 5, 6, 7, 8 if n == 0 then return mark() end return 1 + rec(n - 1) + (a - a) end
+		      local co = coroutine.create(function() return rec(N) end)
+		      local ok, v = coroutine.resume(co)
+		      if coroutine.running() ~= nil then return false, "main thread is not running" end
+		      if coroutine.status(co) ~= "dead" then return false, "status " .. coroutine.status(co) end
+		      local ok2, v2 = coroutine.resume(co)
+		      if ok2 ~= false or not tostring(v2):find("dead") then return false, "second resume: " .. tostring(v2) end
+		      return ok, v`},
 	{name: "pushn", kind: "reg", want: func(n int) int { return n },
 		src: `return pcall(function() mark() return pushn(N) end)`},
 	{name: "rec-api", kind: "call", api: true, want: func(n int) int { return n },
@@ -822,12 +850,18 @@ func genLimits(w *lib.Writer, r *lib.Rand, tier string) {
 	for pi := range limitProgs {
 		p := &limitProgs[pi]
 		cfgs := limitCfgs(p.kind, tier)
+		if strings.HasPrefix(p.name, "deep-regs") {
+			// every alignment of the last frame against the end of the registry
+			for size := 130; size < 142; size++ {
+				cfgs = append(cfgs, Cfg{CSS: 2000, Reg: size, Max: 0, Grow: 32, Min: size%2 == 0})
+			}
+		}
 		// need(N) = k0 + slope*N, calibrated exactly at three points; N above 6000 uses the line
 		n0 := 40
 		if p.kind == "reg" {
 			n0 = 300 // above the smallest registry so that the measuring registry grows
 		}
-		if p.name == "deep-regs" {
+		if strings.HasPrefix(p.name, "deep-regs") {
 			n0 = 60
 		}
 		cal, _ := measure(p, []int{n0, n0 + 1, 2 * n0})
@@ -844,7 +878,7 @@ func genLimits(w *lib.Writer, r *lib.Rand, tier string) {
 			seen := map[int]bool{}
 			for _, t := range limitTargets(p, c, r, tier) {
 				n := (t - k0) / slope
-				if n < 1 || n > 140000 || (p.name == "deep-regs" && n > 1500) || seen[n] {
+				if n < 1 || n > 140000 || (strings.HasPrefix(p.name, "deep-regs") && n > 1500) || seen[n] {
 					continue
 				}
 				seen[n] = true
